@@ -533,7 +533,7 @@ def features_of(tree) -> set:
         h = t[0]
         if isinstance(h, str):
             if h in ("and", "or", "not", "forall", "exists", "imply", "when", "assign", "increase", "decrease",
-                     "scale-up", "scale-down", "<", "<=", ">", ">=", "="):
+                     "scale-up", "scale-down", "<", "<=", ">", ">=", "=", "+", "-", "*", "/"):
                 tag = h
                 if h == "=":
                     tag = "num=" if any(isinstance(x, list) or model.is_num(x) for x in t[1:]) else "obj="
@@ -546,7 +546,7 @@ def features_of(tree) -> set:
                     go(x, inside + (h,))
                 return
             out.add("atom")
-            if len(set(t[1:])) < len(t[1:]):
+            if all(isinstance(x, str) for x in t[1:]) and len(set(t[1:])) < len(t[1:]):
                 out.add("repeated-arg")
         for x in t:
             go(x, inside)
